@@ -27,10 +27,13 @@ UNIVERSE_COMMON = {
     "G": ("struct", None, True, 1), "H": ("struct", None, True, 2),
     "AT": ("alias:T", True, True, 0), "AE": ("alias:E", True, True, 0), "AI": ("alias:I", True, True, 0),
     "Ptr": ("ptr", True, False, 0), "Ch": ("chan", True, True, 0),
+}
+# defined types over every kind that can carry methods (declared in the prelude); opt-in: Gen(..., universe=UNIVERSE_WITH_METHODS)
+UNIVERSE_WITH_METHODS = dict(UNIVERSE_COMMON, **{
     "Box": ("chan", True, True, 0), "BoxS": ("chan", True, True, 0), "BoxR": ("chan", True, True, 0), "SlM": ("slice", False, True, 0),
     "MpM": ("map", False, True, 0), "FnM": ("func", False, True, 0), "ArM": ("array", True, True, 0), "StM": ("string", True, True, 0),
     "FlM": ("float", True, True, 0), "PsM": ("struct", True, True, 0),
-}
+})
 ALIAS_TARGET = {"AT": "T", "AE": "E", "AI": "I"}
 
 PRELUDE_COMMON = '''
@@ -123,6 +126,17 @@ func (Xa2) a() int { return pkgID*10 + 3 }
 // a call through an interface value of the instantiating type (interface{ p.Ka; q.Ka } has TWO methods named a)
 func CallKa[T Ka](x T) int { return x.a() }
 func CallKb[T Kb](x T) int { return x.b() }
+
+// interface{ p.Kz; q.Kc } lists alpha (of q) before zed (of p); the method table of struct{ p.Xz; q.Xc } has vm/p.zed first
+type Kz interface{ zed() int }
+type Kc interface{ alpha() int }
+type Xz struct{}
+type Xc struct{}
+
+func (Xz) zed() int   { return pkgID*10 + 6 }
+func (Xc) alpha() int { return pkgID*10 + 7 }
+func CallZed[T Kz](x T) int   { return x.zed() }
+func CallAlpha[T Kc](x T) int { return x.alpha() }
 
 // a non-ASCII exported method name sorts AFTER every `pkgpath.name` of an unexported method
 type Uni interface {
@@ -298,7 +312,8 @@ def has_unexported_member(t):
 # ---------------------------------------------------------------------------------------------- generation
 
 class Gen:
-    def __init__(self, rng, home="r", allow_local=True, closed=False):
+    def __init__(self, rng, home="r", allow_local=True, closed=False, universe=None):
+        self.universe = universe or UNIVERSE_COMMON
         self.rng = rng
         self.home = home
         self.allow_local = allow_local
@@ -313,8 +328,8 @@ class Gen:
     def named(self, comparable=False, embeddable=False, depth=3):
         rng = self.rng
         for _ in range(20):
-            name = rng.choice(list(UNIVERSE_COMMON))
-            kind, cmp_, emb, nt = UNIVERSE_COMMON[name]
+            name = rng.choice(list(self.universe))
+            kind, cmp_, emb, nt = self.universe[name]
             if embeddable and not emb:
                 continue
             pkg = rng.choice(self.pkgs())
@@ -360,7 +375,7 @@ class Gen:
             tag = rng.choice([None, None, None, 'json:"a"', 'x:"1"', "k", 'x:"2"', "é \"q\""])
             if rng.random() < 0.3:
                 et = self.named(comparable=comparable, embeddable=True, depth=depth - 1) if rng.random() < 0.8 else ('b', rng.choice(["int", "string", "byte", "uint8", "error"]))
-                if et[0] == 'n' and UNIVERSE_COMMON[et[2]][0] not in ("iface", "alias:I") and rng.random() < 0.3 and not comparable:
+                if et[0] == 'n' and self.universe[et[2]][0] not in ("iface", "alias:I") and rng.random() < 0.3 and not comparable:
                     et2 = ('p', et)
                 else:
                     et2 = et
@@ -656,8 +671,9 @@ def mutate_node(rng, n, ctx, cmpc, gen):
         others = [p for p in gen.pkgs() if p != pkg]
         if others:
             opts.append((('n', rng.choice(others), name, targs), "named-pkg"))
-        kind = UNIVERSE_COMMON[name]
-        same_arity = [m for m, v in UNIVERSE_COMMON.items() if v[3] == kind[3] and m != name and (not cmpc or v[1])]
+        uni = getattr(gen, "universe", UNIVERSE_COMMON)
+        kind = uni[name]
+        same_arity = [m for m, v in uni.items() if v[3] == kind[3] and m != name and (not cmpc or v[1])]
         if same_arity and not cmpc:
             opts.append((('n', pkg, rng.choice(same_arity), targs), "named-name"))
         if name in ALIAS_TARGET:
